@@ -164,6 +164,12 @@ var c08History = []string{
 	"{ for (q in [1]) { x = match (1) { z => { break } } } }",
 	"function f() { for (q in [1]) { x = match (q) { z => { return 1 } } } }\n{ f() }",
 	"function f() { return [1][0 - 5] }\n{ x = match (1) { 2 => f(), z => 0 } }",
+	// next raised inside a function that is called from a rule PATTERN, from BEGINFILE, from ENDFILE
+	"function f() { next }\nf() { print 'never' }",
+	"function f(x) { if (x) next\nreturn 1 }\n$ && f($) && 0 { print 'never' }",
+	"function f() { next }\nBEGINFILE { f() }",
+	"function f() { next }\nENDFILE { f() }",
+	"function f() { exit }\nfunction g() { return 1 }\n{ g() }\nEND { g() }",
 }
 
 // VHC08History: the number of completed calls / matches / next statements executed so
@@ -175,7 +181,13 @@ func VHC08History() {
 	for i := range arr {
 		arr[i] = 1.0
 	}
-	out, k := runProg(p+"\nEND { print 'done' }", arr)
+	var out string
+	var k int
+	if vh.Choose("stream", 2) == 1 {
+		out, k = runProg(p+"\nEND { print 'done' }", arr...) // 5000 values, each with its own BEGINFILE / ENDFILE
+	} else {
+		out, k = runProg(p+"\nEND { print 'done' }", arr) // one array of 5000 elements
+	}
 	vh.Reach("history evaluated")
 	vh.Assert(k == OK, "C08: thousands of completed calls / matches / next statements must not exhaust the call depth: "+lbl(p))
 	vh.Assert(out == "done\n", "C08: the run completes normally: "+lbl(p))
